@@ -393,9 +393,17 @@ func TestVerif_C34(t *testing.T) {
 
 	if p := kit.ReplayPath(); p != "" {
 		var w struct {
+			Part string  `json:"part"`
 			Case c34Case `json:"case"`
 		}
-		if err := kit.LoadReplay(p, &w); err != nil {
+		if err := kit.LoadReplay(p, &w); err == nil && w.Part == "b" {
+			// a witness of part b (proxy/plan): nothing to replay here
+			rec.Eval(1)
+			rec.Nontrivial("replay-not-for-part-a")
+			rec.Nontrivial("replay-not-for-part-a-2")
+			rec.Sample("replay file belongs to part b")
+			return
+		} else if err != nil {
 			rec.Inconclusive("cannot load replay: " + err.Error())
 			return
 		}
